@@ -7,7 +7,8 @@ import (
 type WebSocketBuilder struct{}
 
 func (*WebSocketBuilder) New(ctx *types.HttpContext) Transport {
-	return NewWebSocket(ctx)
+	// started by the engine, once its listeners are attached
+	return NewDeferredWebSocket(ctx)
 }
 func (*WebSocketBuilder) Name() string {
 	return WEBSOCKET
@@ -24,7 +25,8 @@ func (*WebSocketBuilder) UpgradesTo() *types.Set[string] {
 type WebTransportBuilder struct{}
 
 func (*WebTransportBuilder) New(ctx *types.HttpContext) Transport {
-	return NewWebTransport(ctx)
+	// started by the engine, once its listeners are attached
+	return NewDeferredWebTransport(ctx)
 }
 func (*WebTransportBuilder) Name() string {
 	return WEBTRANSPORT
